@@ -16,7 +16,13 @@ MapSeq(Op(_), s) == [i \in DOMAIN s |-> Op(s[i])]
 FilterSeq(s, P(_)) == SelectSeq(s, P)
 TakeN(s, n)     == IF Len(s) <= n THEN s ELSE SubSeq(s, 1, n)
 \* sort a finite set into a sequence with a strict order
-SortBy(S, Less(_, _)) == SetToSortSeq(S, Less)
+\* (by rank: the CommunityModules' SetToSortSeq enumerates permutations and is unusable beyond ~8 elements;
+\*  elements the order does not separate keep an arbitrary but fixed relative order)
+SortBy(S, Less(_, _)) ==
+    LET n == Cardinality(S)
+        rank == [x \in S |-> Cardinality({y \in S : Less(y, x)})]
+        F[r \in 0..n] == IF r = 0 THEN <<>> ELSE F[r - 1] \o SetToSeq({x \in S : rank[x] = r - 1})
+    IN F[n]
 
 Min2(a, b) == IF a <= b THEN a ELSE b
 Max2(a, b) == IF a >= b THEN a ELSE b
